@@ -670,4 +670,127 @@ Proof.
     + rewrite Zlength_app, Zlength_rev. lia.
     + lia.
 Qed.
+Lemma skipn_nth : forall (l : list Z) k x, nth_error l k = Some x -> exists tl, skipn k l = x :: tl.
+Proof.
+  induction l as [|a l IH]; destruct k; cbn [nth_error skipn]; intros x H; try discriminate.
+  - inversion H; eauto.
+  - apply IH; auto.
+Qed.
+
+Lemma region_rest_head : forall d off, 0 <= off < dsize d ->
+  exists x tl, region_rest d off = x :: tl /\ nth_error (flat d) (Z.to_nat off) = Some x.
+Proof.
+  induction d as [|r d IH]; intros off H; unfold dsize in *; cbn [flat concat] in *.
+  - rewrite Zlength_nil in H. lia.
+  - cbn [region_rest]. rewrite Zlength_app in H. pose proof (Zlength_nonneg r).
+    destruct (Z.ltb_spec off (Zlength r)).
+    + destruct (nth_error r (Z.to_nat off)) eqn:E.
+      * destruct (skipn_nth _ _ _ E) as [tl Htl]. exists z, tl. split; auto.
+        rewrite nth_error_app1; auto. rewrite Zlength_correct in *; lia.
+      * apply nth_error_None in E. rewrite Zlength_correct in *; lia.
+    + destruct (IH (off - Zlength r)) as (x & tl & E1 & E2); [fold (flat d); lia|].
+      exists x, tl. split; auto. rewrite nth_error_app2 by (rewrite Zlength_correct in *; lia).
+      rewrite <- E2. f_equal. rewrite Zlength_correct in *. lia.
+Qed.
+
+Lemma Zlength_pos : forall (l : list Z), l <> [] -> 0 < Zlength l.
+Proof. intros [|a l] H; [contradiction|]. rewrite Zlength_cons. pose proof (Zlength_nonneg l). lia. Qed.
+
+(* the 1-byte map of offset-1 (transform.c:954) yields the last byte of everything before the region *)
+Lemma get_last0 : forall site d r pre post, flat d = pre ++ r ++ post -> pre <> [] -> r <> [] -> Zlength pre < 2 ^ 63 ->
+  get_last site d r (Zlength pre) 0 = Ok (last pre 0).
+Proof.
+  intros site d r pre post H H0 Hr Hlt. unfold get_last. change (0 =? 0) with true. cbv iota.
+  pose proof (Zlength_pos pre H0). pose proof (Zlength_pos r Hr). pose proof (Zlength_nonneg post).
+  rewrite u64_id by lia. unfold sub_map.
+  assert (Hsz : dsize d = Zlength pre + Zlength r + Zlength post) by (unfold dsize; rewrite H, !Zlength_app; lia).
+  replace ((Zlength pre - 1 <? dsize d) && (0 <? 1) && (1 <=? dsize d - (Zlength pre - 1))) with true by lia.
+  destruct (region_rest_head d (Zlength pre - 1)) as (x & tl & E1 & E2); [lia|].
+  rewrite E1. replace (1 <=? Zlength (x :: tl)) with true by (rewrite Zlength_cons; pose proof (Zlength_nonneg tl); lia).
+  unfold rdo, rd. change (0 <? 0) with false. change (Z.to_nat 0) with 0%nat. cbn [nth_error]. f_equal.
+  rewrite H in E2. destruct (exists_last H0) as [p [a ->]]. rewrite last_last.
+  rewrite Zlength_snoc in E2. replace (Zlength p + 1 - 1) with (Zlength p) in E2 by lia.
+  rewrite Zlength_correct, Nat2Z.id, <- app_assoc, nth_error_app2 in E2 by lia. rewrite Nat.sub_diag in E2.
+  cbn [app nth_error] in E2. congruence.
+Qed.
+
+Definition enc_flat (l : list Z) : list Z := encf 0 0 l ++ tail64 (Zlength l mod 3) (last l 0).
+
+Lemma wr_pad_ok : forall site cap k n l, 0 <= n -> n + Z.of_nat k <= cap ->
+  wr_pad site cap k (n, l) = Ok (n + Z.of_nat k, repeat PAD k ++ l).
+Proof.
+  induction k as [|k IH]; intros n l Hn Hc; cbn [wr_pad repeat app].
+  - rewrite Z.add_0_r. reflexivity.
+  - unfold wr at 1. replace ((0 <=? n) && (n <? cap)) with true by lia. cbn [bind].
+    rewrite IH by lia. f_equal. f_equal; [lia|].
+    clear. induction k; cbn [repeat app]; [reflexivity|]. rewrite IHk. reflexivity.
+Qed.
+
+(* one region of the encoder, in the context flat d = pre ++ r ++ post *)
+Lemma b64e_region_ok : forall d cap r pre post n l,
+  flat d = pre ++ r ++ post -> r <> [] -> dsize d < 2 ^ 62 ->
+  l = rev (encf 0 0 pre) -> n = Zlength l ->
+  Zlength (enc_flat (flat d)) <= cap ->
+  b64e_region d (dsize d) cap (Zlength pre, (n, l)) (Zlength pre) r =
+    Ok (Zlength pre + Zlength r,
+        if Zlength post =? 0 then (Zlength (enc_flat (flat d)), rev (enc_flat (flat d)))
+        else (Zlength (encf 0 0 (pre ++ r)), rev (encf 0 0 (pre ++ r)))).
+Proof.
+  intros d cap r pre post n l H Hr Hsz Hl Hn Hcap.
+  pose proof (Zlength_nonneg pre) as Hp0. pose proof (Zlength_pos r Hr) as Hr0. pose proof (Zlength_nonneg post) as Hq0.
+  assert (Htot : dsize d = Zlength pre + Zlength r + Zlength post) by (unfold dsize; rewrite H, !Zlength_app; lia).
+  assert (Hsplit : encf 0 0 (flat d) = encf 0 0 pre ++ encf (last pre 0) (Zlength pre) r ++
+                                       encf (last r (last pre 0)) (Zlength pre + Zlength r) post).
+  { rewrite H, encf_app, encf_app. rewrite Z.add_0_l. reflexivity. }
+  unfold enc_flat in Hcap. rewrite Zlength_app, Hsplit, !Zlength_app in Hcap.
+  pose proof (Zlength_nonneg (encf (last r (last pre 0)) (Zlength pre + Zlength r) post)).
+  pose proof (Zlength_nonneg (tail64 (Zlength (flat d) mod 3) (last (flat d) 0))).
+  unfold b64e_region.
+  change (b64e_body d cap r (Zlength pre)) with
+    (fun i s => do c <- rdo 949 r i; b64e_char d cap r (Zlength pre) i c s).
+  rewrite iter_rdo0.
+  assert (Hg : Zlength pre = 0 \/ get_last 959 d r (Zlength pre) 0 = Ok (last pre 0)).
+  { destruct pre as [|z pre']; [left; reflexivity|right].
+    apply (get_last0 959 d r (z :: pre') post H); [discriminate|exact Hr|lia]. }
+  rewrite (b64e_fold d cap r (Zlength pre) (last pre 0) Hp0 Hg r [] (Zlength pre) n l (last pre 0));
+    try reflexivity; try assumption; try (rewrite ?Zlength_nil; lia).
+  2: { subst n l. rewrite Zlength_rev. lia. }
+  cbn [bind].
+  replace (u64 (Zlength pre + Zlength r)) with (Zlength pre + Zlength r) by (rewrite u64_id; lia).
+  assert (Hacc : rev (encf (last pre 0) (Zlength pre) r) ++ l = rev (encf 0 0 (pre ++ r))).
+  { subst l. rewrite encf_app, rev_app_distr, Z.add_0_l. reflexivity. }
+  assert (Hnn : n + Zlength (encf (last pre 0) (Zlength pre) r) = Zlength (encf 0 0 (pre ++ r))).
+  { subst n l. rewrite encf_app, Zlength_app, Zlength_rev, Z.add_0_l. reflexivity. }
+  rewrite Hacc, Hnn.
+  destruct (Z.eqb_spec (Zlength post) 0) as [Eq|Eq].
+  - (* last region: padding *)
+    apply Zlength_nil_inv in Eq. subst post. rewrite app_nil_r in *. rewrite Zlength_nil in *.
+    replace (Zlength pre + Zlength r =? dsize d) with true by lia.
+    assert (Hall : Zlength (flat d) = Zlength pre + Zlength r) by (fold (dsize d); lia).
+    unfold enc_flat. rewrite Hall, <- H. unfold tail64 in *.
+    cbn [encf] in Hcap. rewrite Zlength_nil in Hcap. rewrite Hall in Hcap.
+    pose proof (Zlength_nonneg (encf 0 0 (flat d))) as He0.
+    assert (He : Zlength (encf 0 0 pre) + Zlength (encf (last pre 0) (Zlength pre) r) = Zlength (encf 0 0 (flat d))).
+    { rewrite H, encf_app, Zlength_app, Z.add_0_l. reflexivity. }
+    destruct (Z.eqb_spec ((Zlength pre + Zlength r) mod 3) 0) as [E0|E0].
+    + rewrite app_nil_r. reflexivity.
+    + assert (Hlast : rdo 986 r (Zlength r - 1) = Ok (last (flat d) 0)).
+      { unfold rdo. rewrite rd_last by exact Hr. rewrite H, last_app_ne by exact Hr. reflexivity. }
+      rewrite Hlast. cbn [bind].
+      destruct (Z.eqb_spec ((Zlength pre + Zlength r) mod 3) 1) as [E1|E1].
+      * rewrite !Zlength_cons, Zlength_nil in Hcap.
+        rewrite tput64; [|change 48 with (Z.land 48 63) | lia].
+        2: { rewrite Z.land_assoc. apply land63. }
+        cbn [bind]. rewrite wr_pad_ok by lia. cbn [bind repeat app].
+        rewrite Zlength_app, !Zlength_cons, Zlength_nil, rev_app_distr. cbn [rev app Z.of_nat].
+        f_equal. f_equal. lia.
+      * rewrite !Zlength_cons, Zlength_nil in Hcap.
+        rewrite tput64; [|change 60 with (Z.land 60 63) | lia].
+        2: { rewrite Z.land_assoc. apply land63. }
+        cbn [bind]. rewrite wr_pad_ok by lia. cbn [bind repeat app].
+        rewrite Zlength_app, !Zlength_cons, Zlength_nil, rev_app_distr. cbn [rev app Z.of_nat].
+        f_equal. f_equal. lia.
+  - replace (Zlength pre + Zlength r =? dsize d) with false by lia. reflexivity.
+Qed.
+
 End B64enc.
